@@ -69,8 +69,6 @@ def r1(ctx):
         okl = False
         bad = False
         for fb in fam:
-            if fb.id == t.id:
-                continue
             for bb, i, s in fb.all_stmts():
                 for pl in ([s["r"]["p"]] if "p" in s["r"] and isinstance(s["r"].get("p"), dict) else []) + [op_place(o) for o in _ops(s["r"]) if op_place(o)]:
                     fs = place_fields(pl)
@@ -151,6 +149,25 @@ def r2(ctx):
             if "call:std::net::SocketAddr::port" not in key_at:
                 ok = False
                 msg.append("entry key is not addr.port()")
+        if not ok and not ent:
+            # accepted alternative: `if binds.contains_key(&port) { return Err(AddrInUse) } .. binds.insert(port, ..)`
+            te_all, fe_all = [], []
+            for sbb, te, fe, o in guards_on(b, lambda o: o["k"] == "call" and re.search(r"^indexmap::IndexMap::contains_key$", o["t"]["f"])):
+                t = o["t"]
+                if _on_field(b, t["args"][0], fld) and "call:std::net::SocketAddr::port" in Slicer(ctx.w).atoms(b, t["args"][1]):
+                    te_all += te
+                    fe_all += fe
+            fins = [(bb, t) for bb, t in ins if t["f"].startswith("indexmap::IndexMap::") and _on_field(b, t["args"][0], fld)]
+            if te_all and fins:
+                keyed = all("call:std::net::SocketAddr::port" in Slicer(ctx.w).atoms(b, t["args"][1]) for bb, t in fins)
+                guarded = all(b.dominated_by_any(bb, edges=fe_all) for bb, t in fins)
+                r_ = set()
+                for e in te_all:
+                    r_ |= b.reachable(e[1])
+                inuse = any(s2["r"]["k"] == "agg" and s2["r"].get("variant") == "AddrInUse" for x in r_ for s2 in b.stmts(x))
+                okret = any(b.term(x)["k"] == "return" for x in r_) and not any(x in r_ for x, _ in fins)
+                ok = keyed and guarded and inuse and okret
+                msg = [] if ok else ["contains_key guard does not protect the insertion / does not fail with AddrInUse"]
         ctx.inst(R, f"{fid}:occupied-vacant", ok, b.span, "duplicate bind rejected with AddrInUse, insertion only when vacant" if ok else
                  f"`{fid}`: " + ("; ".join(msg) or "not an entry()/Occupied/Vacant bind") + " - a port in use can be bound twice")
     ctx.floor(R, 2)
